@@ -870,7 +870,11 @@ func evalInit(d *cliCase, ss []string) (cl string, il string) {
 		virt[i] = strings.ReplaceAll(s, "{ROOT}", "")
 		real[i] = strings.ReplaceAll(s, "{ROOT}", root)
 	}
-	toks := []string{hx("/w"), strconv.Itoa(d.Dash), strconv.Itoa(len(virt))}
+	isDirV := map[string]bool{}
+	for k, v := range before {
+		isDirV[k] = v.dir
+	}
+	toks := []string{initRule(isDirV, "/w", virt, d.Dash), hx("/w"), strconv.Itoa(d.Dash), strconv.Itoa(len(virt))}
 	for _, s := range virt {
 		toks = append(toks, hx(s))
 	}
@@ -927,13 +931,70 @@ func evalInit(d *cliCase, ss []string) (cl string, il string) {
 	}
 }
 
+// initRule: where the RULE of the property says `task --init [PATH]` writes — computed from the tree the
+// generator made, independently of the code's own predicates (and of the model's transcription of them):
+// no argument → the working directory; an argument that names an existing directory → Taskfile.yml in it;
+// a last component that is an extension only (".yml": a dot, then at least one byte, no further dot) →
+// "Taskfile"+ext beside it; anything else → that file.  A target that is itself a directory takes
+// Taskfile.yml inside; nothing that exists is ever overwritten; a missing parent is an error.
+// Result token: w<hex path> | x (refused: exists) | e (error).
+func initRule(isDir map[string]bool, wd string, args []string, dash int) string {
+	pos := args
+	if dash >= 0 && dash <= len(args) {
+		pos = args[:dash]
+	}
+	resolve := func(x string) string {
+		if strings.HasPrefix(x, "/") {
+			return filepath.Clean(x)
+		}
+		return filepath.Join(wd, x)
+	}
+	exists := func(p string) bool { _, ok := isDir[p]; return ok }
+	inDir := func(d string) string {
+		t := filepath.Join(d, "Taskfile.yml")
+		if exists(t) {
+			return "x"
+		}
+		return "w" + hx(t)
+	}
+	if len(pos) == 0 {
+		if isDir[wd] {
+			return inDir(wd)
+		}
+		return "e"
+	}
+	a := pos[0]
+	target := resolve(a)
+	if !(exists(target) && isDir[target]) {
+		last := a[strings.LastIndex(a, "/")+1:]
+		if len(last) >= 2 && last[0] == '.' && !strings.Contains(last[1:], ".") {
+			d := a[:len(a)-len(last)]
+			if d == "" {
+				d = "."
+			}
+			target = resolve(filepath.Join(d, "Taskfile"+last))
+		}
+	}
+	switch {
+	case exists(target) && isDir[target]:
+		return inDir(target)
+	case exists(target):
+		return "x"
+	case exists(filepath.Dir(target)) && isDir[filepath.Dir(target)]:
+		return "w" + hx(target)
+	default:
+		return "e"
+	}
+}
+
 func (c *Ctx) genInit() *cliCase {
 	d := &cliCase{Kind: "init", Dash: -1, Flag: "--init"}
 	if c.Rng.Intn(4) == 0 {
 		d.Flag = "-i"
 	}
 	pool := []string{"d:w/sub", "d:w/deep/er", "f:w/Taskfile.yml", "f:w/sub/Taskfile.yml", "f:w/exist.yml", "f:w/sub/x.yml", "d:other",
-		"f:other/Taskfile.yml", "f:w/Taskfile.yaml", "d:w/dir.yml", "f:w/sub/Taskfile.yaml", "f:Taskfile.yml", "d:w/sub/Taskfile.yml", "d:w/with space"}
+		"f:other/Taskfile.yml", "f:w/Taskfile.yaml", "d:w/dir.yml", "f:w/sub/Taskfile.yaml", "f:Taskfile.yml", "d:w/sub/Taskfile.yml", "d:w/with space",
+		"d:w/.hid", "d:w/sub/.cfg", "f:w/.hid/Taskfile.yml", "f:w/.dotfile", "f:w/Taskfile.hid", "f:w/Taskfile."}
 	for _, e := range pool {
 		if c.Rng.Intn(3) == 0 {
 			d.Tree = append(d.Tree, e)
@@ -942,7 +1003,8 @@ func (c *Ctx) genInit() *cliCase {
 	argPool := []string{"sub", "sub/", "new.yml", "exist.yml", ".yml", ".yaml", "sub/.yaml", "sub/new.yml", "missing/new.yml", "exist.yml/x",
 		"{ROOT}/w/sub", "{ROOT}/other", "{ROOT}/other/a.yml", "{ROOT}/w/abs.yml", "..", "../up.yml", "./x.yml", "sub/../y.yml", ".", "./",
 		"with space", "with space/t.yml", "a b.yml", "Taskfile.yaml", "Taskfile.yml", "dir.yml", "deep/er", "deep/er/.yml", "noext", "a.b.c",
-		"sub//z.yml", "sub/./z.yml", "'q'.yml", "$HOME.yml", "*.yml", "x=y.yml", "é.yml"}
+		"sub//z.yml", "sub/./z.yml", "'q'.yml", "$HOME.yml", "*.yml", "x=y.yml", "é.yml",
+		".", "sub/.", "deep/er/.", "../w/.", "{ROOT}/w/.", "sub/..", "./.", ".hid", ".hid/", "sub/.cfg", ".dotfile", "...", ".a.b", "missing/.", "exist.yml/."}
 	var argv []string
 	switch r := c.Rng.Intn(10); {
 	case r < 2:
